@@ -520,7 +520,9 @@ def classify_error(binary, case, asis):
     ka = fault_key(case['fault'], alone)
     sig = [s for s in (report_sig(reports, n0 + i) for i in range(len(cmds))) if s]
     out = dict(case, observed=[list(o) for o in whole], observed_node_alone=[list(o) for o in alone], reports=sig)
-    if ka is not None:
+    pa, fa = asis.outcomes(case['node'], env, write=(case['cmd'] == 'A'))
+    alone_explained = bool(fa) and all(matches(o, pa) for o in alone)
+    if ka is not None and not alone_explained:
         out['text'] = case['node']
         out['observed'] = out['observed_node_alone']
         return ka, out
